@@ -1240,6 +1240,8 @@ PROPS["C10"] = Prop(
     "encoders, sync / fsm decode_ranges, sync / fsm copy, sync / fsm valid_ranges and valid_outboard_ranges} x every io object involved (sequential data reader, positioned data reader, "
     "stream reader, stream writer, target, outboard load / save / sync) x failing call index k (every k up to the fault-free count in thorough; first, "
     "last and random in quick) x kinds {Other, UnexpectedEof, ConnectionReset, WriteZero}; observation = result + the full call log of the wrappers. "
+    "the certified checker holds_fault accepts: result = the injected io error (or NotFound for a decoder at EOF), exactly k+1 calls on the failed object with the failing one last, log = prefix of the fault-free log; "
+    "for a ConnectionReset on the stream writer of the two fsm encoders it accepts only ParentWrite / LeafWrite (which item is named is compared with the model). "
     "sched: the k-th read of a fragmenting stream reader fails. non-trivial = a fault is injected",
     trusted=["the io wrappers of harness/src/fault.rs define what a 'call' is (one log entry per trait method call)",
              "what the OS / runtime does around a failing call (partial writes inside write_all, cancellation of a pending future) is outside the model: C10 is partial there"],
